@@ -5,7 +5,7 @@ namespace Jm
 /-- **the model's API table is the code's**: for every call, the generated row of its method has the priority and
     the control variants (in order) the model sends -/
 theorem api_generated (c : ApiCall) :
-    lookupApi (methodName c) = some (prioName (apiOf c).1, (apiOf c).2.map ctlName) := by
+    lookupApi (methodName c) = some (prioName (apiOf c).1, (apiOf c).2.map (if isAsync c then asyncName else ctlName)) := by
   cases c <;> first | decide | rfl
 
 /-- the documented priorities (rustdoc of `Job`): wait-for-end is high, delete-now urgent, everything else normal;
